@@ -33,7 +33,7 @@ CHECKS = {
             'Held on the complete (K 1..12, d 1..3, r 0..K, g 0..len(gamma)) sweep and on adversarial real mask vectors (0, negative, 1e30, 3e38, threshold values) on random programs.',
             'NaN/inf not assigned; frozen time maskers not assigned', '5/C08'),
     'C09': ('program-level reference R-alive vs five independent reports per layer + dynamic pre-hook zero check + exported forward',
-            'Held on all 36 concat origin combinations x consumers x families and on random DAGs / excluded layers / user-placed layers; the PIT masker-sharing defects found (excluded layers, sums with / depthwise after a concat, concat into an output) were repaired. The README's autoconvert-off usage (a standard layer behind a user-placed PIT layer) is a known finding.',
+            'Held on all 36 concat origin combinations x consumers x families and on random DAGs / excluded layers / user-placed layers; the PIT masker-sharing defects found (excluded layers, sums with / depthwise after a concat, concat into an output) were repaired. The README autoconvert-off usage (a standard layer behind a user-placed PIT layer) is a known finding.',
             'R-alive takes each layer\'s own binarised mask as given; dynamic check one-sided', '5/C09'),
     'C10': ('history + offline checker: class-level wrappers on the sampling functions log every sampling event (generated histories and the repository MPS / SuperNet tests as a workload); rules of the statement applied per event; summary/export vs R-select at the end of each history',
             'Held on every recorded sampling event of random option/forward interleavings on stand-alone quantizers / combiners and whole models; SuperNet soft-in-eval is a known finding.',
